@@ -385,27 +385,49 @@ func main() {
 	reported := 0
 	replayDir := filepath.Join(verifDir, "replays")
 	handle := func(planFile string, first *Result) {
-		// confirm in a fresh process
-		r2, err := runPlanFile(planFile, knownEnv, scratch, fmt.Sprintf("confirm-%d", first.Seed))
-		if err != nil {
-			fatal2("confirm: %v", err)
+		// confirm in a fresh process (up to 3 attempts: some violations depend
+		// on choices inside zenodb that no plan can pin, e.g. Go map order; a
+		// violation that reproduces at least once is reported, one that never
+		// reproduces is a harness problem)
+		reproduces := func(file string, tag string) *Result {
+			for attempt := 0; attempt < 3; attempt++ {
+				r, err := runPlanFile(file, knownEnv, scratch, fmt.Sprintf("%s-%d-%d", tag, first.Seed, attempt))
+				if err != nil {
+					fatal2("replay: %v", err)
+				}
+				if first.Status == "crash" && r.Status == "crash" {
+					return r
+				}
+				if r.Status == first.Status && r.Sig == first.Sig {
+					return r
+				}
+				if attempt == 2 {
+					fmt.Fprintf(os.Stderr, "replay of %s: expected %s/%s, last attempt gave %s/%s\n", file, first.Status, first.Sig, r.Status, r.Sig)
+				}
+			}
+			return nil
 		}
-		if first.Status == "crash" && r2.Status == "crash" {
-			first.Sig = r2.Sig
-			first.Detail = r2.Detail
-		}
-		if r2.Status != first.Status || r2.Sig != first.Sig {
-			fmt.Fprintf(os.Stderr, "NONDETERMINISM: seed %d gave %s/%s then %s/%s on replay\n--- first\n%s\n--- replay\n%s\n", first.Seed, first.Status, first.Sig, r2.Status, r2.Sig, first.Detail, r2.Detail)
+		r2 := reproduces(planFile, "confirm")
+		if r2 == nil {
+			fmt.Fprintf(os.Stderr, "NONDETERMINISM: seed %d gave %s/%s but 3 replays in fresh processes did not\n--- first\n%s\n", first.Seed, first.Status, first.Sig, first.Detail)
 			exit = 2
 			return
+		}
+		if first.Status == "crash" {
+			first.Sig = r2.Sig
+			first.Detail = r2.Detail
 		}
 		final := planFile
 		minNote := ""
 		if !*noMin && first.Status == "violation" {
 			mf, n0, n1 := minimise(planFile, first.Sig, knownEnv, scratch, W)
 			if mf != "" {
-				final = mf
-				minNote = fmt.Sprintf(" (minimised from %d to %d ops)", n0, n1)
+				if reproduces(mf, "minconfirm") != nil {
+					final = mf
+					minNote = fmt.Sprintf(" (minimised from %d to %d ops)", n0, n1)
+				} else {
+					minNote = " (not minimised: the minimised plan did not reproduce reliably)"
+				}
 			}
 		}
 		os.MkdirAll(replayDir, 0755)
@@ -417,10 +439,9 @@ func main() {
 		if err := os.WriteFile(dst, b, 0644); err != nil {
 			fatal2("%v", err)
 		}
-		// replay the final file once more
-		r3, err := runPlanFile(dst, knownEnv, scratch, fmt.Sprintf("final-%d", first.Seed))
-		if err != nil || (r3.Status != "violation" && r3.Status != "crash") {
-			fmt.Fprintf(os.Stderr, "NONDETERMINISM: minimised replay %s does not reproduce\n", dst)
+		r3 := reproduces(dst, "final")
+		if r3 == nil {
+			fmt.Fprintf(os.Stderr, "NONDETERMINISM: replay %s does not reproduce\n", dst)
 			exit = 2
 			return
 		}
